@@ -33,6 +33,10 @@ pub mod hooks {
         /// when set, outbound TCP connects are not performed: the attempt is recorded and
         /// fails with the given raw OS error
         pub stub_tcp_connect_errno: Option<i32>,
+        /// when set, `Core::make_forwarder` returns a scripted forwarder
+        pub forwarder: Option<super::vtunnel::FwdScript>,
+        /// calls the scripted forwarder received
+        pub forwarder_calls: Vec<String>,
     }
 
     lazy_static::lazy_static! {
@@ -55,6 +59,13 @@ pub mod hooks {
                 .await
                 .map(|x| x.collect::<Vec<_>>().into_iter()),
         }
+    }
+
+    pub(crate) fn forwarder_override() -> Option<Box<dyn crate::forwarder::Forwarder>> {
+        let st = STATE.lock().unwrap();
+        st.forwarder
+            .clone()
+            .map(|script| Box::new(super::vtunnel::ScriptedForwarder { script }) as Box<dyn crate::forwarder::Forwarder>)
     }
 
     pub(crate) fn on_tcp_connect(peer: &SocketAddr) -> Option<io::Error> {
@@ -993,5 +1004,400 @@ pub mod vh1 {
             .and_then(|x| x.ok())
             .unwrap_or_default();
         obs
+    }
+}
+
+// ---------------------------------------------------------------------------------------
+// Tunnel sessions over in-memory transports with a scripted forwarder (C01 / C10 / C16 / C20)
+
+pub mod vtunnel {
+    use crate::core::Core;
+    use crate::forwarder::*;
+    use crate::tls_demultiplexer::Protocol;
+    use crate::{authentication, datagram_pipe, downstream, http1_codec, http2_codec, log_utils, net_utils, pipe, tunnel};
+    use async_trait::async_trait;
+    use bytes::Bytes;
+    use std::collections::HashMap;
+    use std::io;
+    use std::net::{IpAddr, SocketAddr};
+    use std::pin::Pin;
+    use std::sync::Arc;
+    use std::task::{Context, Poll};
+    use std::time::Duration;
+    use tokio::io::{AsyncRead, AsyncWrite, ReadBuf};
+
+    /// outcome of `TcpConnector::connect` for a destination
+    #[derive(Debug, Clone, PartialEq)]
+    pub enum ConnectScript {
+        /// connected; the peer sends `download` and then closes
+        Ok { download: Vec<u8> },
+        /// completes with the given outcome after a (virtual-time) delay
+        DelayedOk { ms: u64 },
+        Refused,
+        Unreachable,
+        TimedOut,
+        PolicyNonroutable,
+        PolicyLoopback,
+        ResolverFailure,
+        TooManyFiles,
+        Other,
+        AuthenticationFailure,
+    }
+
+    #[derive(Debug, Clone)]
+    pub struct FwdScript {
+        /// keyed by the textual destination (`host:port` / `ip:port`); default `Ok`
+        pub connect: HashMap<String, ConnectScript>,
+        pub default_connect: ConnectScript,
+        pub udp_mux_fails: bool,
+        /// `None` = ICMP forwarding not set up
+        pub icmp_mux: Option<bool>,
+        pub datagram_auth_fails: bool,
+    }
+
+    impl Default for FwdScript {
+        fn default() -> Self {
+            Self {
+                connect: Default::default(),
+                default_connect: ConnectScript::Ok { download: vec![] },
+                udp_mux_fails: false,
+                icmp_mux: Some(true),
+                datagram_auth_fails: false,
+            }
+        }
+    }
+
+    fn note(call: String) {
+        super::hooks::STATE.lock().unwrap().forwarder_calls.push(call);
+    }
+
+    fn auth_str(a: &Option<authentication::Source<'static>>) -> String {
+        match a {
+            None => "none".into(),
+            Some(authentication::Source::Sni(x)) => format!("sni:{}", x),
+            Some(authentication::Source::ProxyBasic(x)) => format!("basic:{}", x),
+        }
+    }
+
+    pub(crate) struct ScriptedForwarder {
+        pub script: FwdScript,
+    }
+
+    struct Connector {
+        script: FwdScript,
+    }
+
+    struct ChunkSrc {
+        chunks: Vec<Bytes>,
+    }
+
+    #[async_trait]
+    impl pipe::Source for ChunkSrc {
+        fn id(&self) -> log_utils::IdChain<u64> {
+            log_utils::IdChain::empty()
+        }
+        async fn read(&mut self) -> io::Result<pipe::Data> {
+            if self.chunks.is_empty() {
+                Ok(pipe::Data::Eof)
+            } else {
+                Ok(pipe::Data::Chunk(self.chunks.remove(0)))
+            }
+        }
+        fn consume(&mut self, _size: usize) -> io::Result<()> {
+            Ok(())
+        }
+    }
+
+    struct RecSink {
+        dest: String,
+    }
+
+    #[async_trait]
+    impl pipe::Sink for RecSink {
+        fn id(&self) -> log_utils::IdChain<u64> {
+            log_utils::IdChain::empty()
+        }
+        fn write(&mut self, data: Bytes) -> io::Result<Bytes> {
+            note(format!("tcp_data {} {}", self.dest, data.len()));
+            Ok(Bytes::new())
+        }
+        fn eof(&mut self) -> io::Result<()> {
+            Ok(())
+        }
+        async fn wait_writable(&mut self) -> io::Result<()> {
+            Ok(())
+        }
+    }
+
+    #[async_trait]
+    impl TcpConnector for Connector {
+        async fn connect(
+            self: Box<Self>,
+            _id: log_utils::IdChain<u64>,
+            meta: TcpConnectionMeta,
+        ) -> Result<(Box<dyn pipe::Source>, Box<dyn pipe::Sink>), tunnel::ConnectionError> {
+            let dest = match &meta.destination {
+                net_utils::TcpDestination::Address(a) => a.to_string(),
+                net_utils::TcpDestination::HostName((h, p)) => format!("{}:{}", h, p),
+            };
+            note(format!("tcp_connect {} auth={}", dest, auth_str(&meta.auth)));
+            let sc = self.script.connect.get(&dest).cloned().unwrap_or(self.script.default_connect.clone());
+            let ok = |download: Vec<u8>| -> Result<(Box<dyn pipe::Source>, Box<dyn pipe::Sink>), tunnel::ConnectionError> {
+                Ok((
+                    Box::new(ChunkSrc { chunks: if download.is_empty() { vec![] } else { vec![Bytes::from(download)] } }),
+                    Box::new(RecSink { dest: dest.clone() }),
+                ))
+            };
+            match sc {
+                ConnectScript::Ok { download } => ok(download),
+                ConnectScript::DelayedOk { ms } => {
+                    tokio::time::sleep(Duration::from_millis(ms)).await;
+                    note(format!("tcp_connect_completed {}", dest));
+                    ok(vec![])
+                }
+                ConnectScript::Refused => Err(tunnel::ConnectionError::Io(io::ErrorKind::ConnectionRefused.into())),
+                ConnectScript::Unreachable => Err(tunnel::ConnectionError::HostUnreachable),
+                ConnectScript::TimedOut => Err(tunnel::ConnectionError::Timeout),
+                ConnectScript::PolicyNonroutable => Err(tunnel::ConnectionError::DnsNonroutable),
+                ConnectScript::PolicyLoopback => Err(tunnel::ConnectionError::DnsLoopback),
+                ConnectScript::ResolverFailure => Err(tunnel::ConnectionError::Io(io::Error::new(
+                    io::ErrorKind::Other,
+                    "failed to lookup address information",
+                ))),
+                ConnectScript::TooManyFiles => Err(tunnel::ConnectionError::Io(io::Error::from_raw_os_error(libc::EMFILE))),
+                ConnectScript::Other => Err(tunnel::ConnectionError::Other("scripted".into())),
+                ConnectScript::AuthenticationFailure => Err(tunnel::ConnectionError::Authentication("scripted".into())),
+            }
+        }
+    }
+
+    struct MuxAuth {
+        fails: bool,
+    }
+
+    #[async_trait]
+    impl DatagramMultiplexerAuthenticator for MuxAuth {
+        async fn check_auth(
+            self: Box<Self>,
+            _client_address: IpAddr,
+            _tls_domain: &'_ str,
+            auth: authentication::Source<'_>,
+            _user_agent: Option<&'_ str>,
+        ) -> Result<(), tunnel::ConnectionError> {
+            note(format!("check_auth auth={}", auth_str(&Some(auth.into_owned()))));
+            if self.fails {
+                Err(tunnel::ConnectionError::Authentication("scripted".into()))
+            } else {
+                Ok(())
+            }
+        }
+    }
+
+    struct NoShared;
+
+    #[async_trait]
+    impl UdpDatagramPipeShared for NoShared {
+        async fn on_new_udp_connection(&self, _meta: &downstream::UdpDatagramMeta) -> io::Result<()> {
+            Ok(())
+        }
+        fn on_connection_closed(&self, _meta: &UdpDatagramMeta) {}
+    }
+
+    struct SilentSource<T>(std::marker::PhantomData<T>);
+
+    #[async_trait]
+    impl<T: Send> datagram_pipe::Source for SilentSource<T> {
+        type Output = T;
+        fn id(&self) -> log_utils::IdChain<u64> {
+            log_utils::IdChain::empty()
+        }
+        async fn read(&mut self) -> io::Result<T> {
+            futures::future::pending().await
+        }
+    }
+
+    struct CountSink<T>(&'static str, std::marker::PhantomData<T>);
+
+    #[async_trait]
+    impl<T: Send> datagram_pipe::Sink for CountSink<T> {
+        type Input = T;
+        async fn write(&mut self, _data: T) -> io::Result<datagram_pipe::SendStatus> {
+            note(format!("{}_datagram", self.0));
+            Ok(datagram_pipe::SendStatus::Sent)
+        }
+    }
+
+    impl Forwarder for ScriptedForwarder {
+        fn tcp_connector(&self) -> Box<dyn TcpConnector> {
+            Box::new(Connector { script: self.script.clone() })
+        }
+
+        fn datagram_mux_authenticator(&self) -> Box<dyn DatagramMultiplexerAuthenticator> {
+            Box::new(MuxAuth { fails: self.script.datagram_auth_fails })
+        }
+
+        fn make_udp_datagram_multiplexer(&self, _id: log_utils::IdChain<u64>, meta: UdpMultiplexerMeta) -> io::Result<UdpMultiplexer> {
+            note(format!("udp_mux auth={}", auth_str(&meta.auth)));
+            if self.script.udp_mux_fails {
+                return Err(io::Error::new(io::ErrorKind::Other, "scripted"));
+            }
+            Ok((
+                Arc::new(NoShared),
+                Box::new(SilentSource::<UdpDatagramReadStatus>(Default::default())),
+                Box::new(CountSink::<downstream::UdpDatagram>("udp", Default::default())),
+            ))
+        }
+
+        fn make_icmp_datagram_multiplexer(&self, _id: log_utils::IdChain<u64>) -> io::Result<Option<IcmpMultiplexer>> {
+            note("icmp_mux".to_string());
+            match self.script.icmp_mux {
+                None => Ok(None),
+                Some(false) => Err(io::Error::new(io::ErrorKind::Other, "scripted")),
+                Some(true) => Ok(Some((
+                    Box::new(SilentSource::<IcmpDatagram>(Default::default())),
+                    Box::new(CountSink::<downstream::IcmpDatagram>("icmp", Default::default())),
+                ))),
+            }
+        }
+    }
+
+    pub(crate) struct Transport(pub tokio::io::DuplexStream);
+
+    impl net_utils::PeerAddr for Transport {
+        fn peer_addr(&self) -> io::Result<SocketAddr> {
+            Ok(SocketAddr::from(([198, 51, 100, 7], 50000)))
+        }
+    }
+
+    impl AsyncRead for Transport {
+        fn poll_read(mut self: Pin<&mut Self>, cx: &mut Context<'_>, buf: &mut ReadBuf<'_>) -> Poll<io::Result<()>> {
+            Pin::new(&mut self.0).poll_read(cx, buf)
+        }
+    }
+
+    impl AsyncWrite for Transport {
+        fn poll_write(mut self: Pin<&mut Self>, cx: &mut Context<'_>, data: &[u8]) -> Poll<io::Result<usize>> {
+            Pin::new(&mut self.0).poll_write(cx, data)
+        }
+        fn poll_flush(mut self: Pin<&mut Self>, cx: &mut Context<'_>) -> Poll<io::Result<()>> {
+            Pin::new(&mut self.0).poll_flush(cx)
+        }
+        fn poll_shutdown(mut self: Pin<&mut Self>, cx: &mut Context<'_>) -> Poll<io::Result<()>> {
+            Pin::new(&mut self.0).poll_shutdown(cx)
+        }
+    }
+
+    #[derive(Debug, Clone)]
+    pub struct VReq {
+        pub method: String,
+        /// CONNECT: authority; other methods: absolute URI
+        pub target: String,
+        pub headers: Vec<(String, Vec<u8>)>,
+        pub body: Vec<u8>,
+    }
+
+    #[derive(Debug, Clone, Default)]
+    pub struct VResp {
+        /// 0 = no response (stream reset / connection closed)
+        pub status: u16,
+        pub headers: Vec<(String, String)>,
+        pub body: Vec<u8>,
+    }
+
+    /// One HTTP/1.1 connection: raw request bytes in (then the client waits `linger_ms`, then
+    /// closes), everything the endpoint wrote out.
+    pub async fn h1_session(core: &Core, sni: &str, sni_creds: Option<String>, raw_request: Vec<u8>, linger_ms: u64) -> Vec<u8> {
+        use tokio::io::{AsyncReadExt, AsyncWriteExt};
+        let (client, server) = tokio::io::duplex(1 << 20);
+        let codec = Box::new(http1_codec::Http1Codec::new(core.verif_settings(), Transport(server), log_utils::IdChain::empty()));
+        let (mut cr, mut cw) = tokio::io::split(client);
+        let client_task = tokio::spawn(async move {
+            let _ = cw.write_all(&raw_request).await;
+            tokio::time::sleep(Duration::from_millis(linger_ms)).await;
+            let _ = cw.shutdown().await;
+        });
+        let reader = tokio::spawn(async move {
+            let mut all = vec![];
+            let _ = cr.read_to_end(&mut all).await;
+            all
+        });
+        core.verif_on_tunnel_request(Protocol::Http1, codec, sni.to_string(), sni_creds).await;
+        let _ = client_task.await;
+        tokio::time::timeout(Duration::from_secs(5), reader).await.ok().and_then(|x| x.ok()).unwrap_or_default()
+    }
+
+    /// One HTTP/2 session carrying `requests` as concurrent streams (sent in order, `gap_ms`
+    /// apart); returns the response observed on each stream.
+    pub async fn h2_session(core: &Core, sni: &str, sni_creds: Option<String>, requests: Vec<VReq>, gap_ms: u64, linger_ms: u64) -> Vec<VResp> {
+        let (client, server) = tokio::io::duplex(1 << 20);
+        let codec = match http2_codec::Http2Codec::new(core.verif_settings(), Transport(server), log_utils::IdChain::empty()) {
+            Ok(c) => Box::new(c),
+            Err(_) => return vec![],
+        };
+        let n = requests.len();
+        let client_task = tokio::spawn(async move {
+            let mut out: Vec<VResp> = vec![VResp::default(); n];
+            let (send, conn) = match h2::client::handshake(client).await {
+                Ok(x) => x,
+                Err(_) => return out,
+            };
+            let driver = tokio::spawn(async move {
+                let _ = conn.await;
+            });
+            let mut pending = vec![];
+            for (i, r) in requests.into_iter().enumerate() {
+                let mut b = http::Request::builder().method(r.method.as_str()).uri(r.target.as_str());
+                for (hn, hv) in &r.headers {
+                    if let Ok(v) = http::HeaderValue::from_bytes(hv) {
+                        b = b.header(hn.as_str(), v);
+                    }
+                }
+                let req = match b.body(()) {
+                    Ok(x) => x,
+                    Err(_) => continue,
+                };
+                let mut ready = match send.clone().ready().await {
+                    Ok(s) => s,
+                    Err(_) => break,
+                };
+                match ready.send_request(req, false) {
+                    Ok((resp, mut body_tx)) => {
+                        if !r.body.is_empty() {
+                            let _ = body_tx.send_data(Bytes::from(r.body.clone()), false);
+                        }
+                        pending.push((i, resp, body_tx));
+                    }
+                    Err(_) => {}
+                }
+                tokio::time::sleep(Duration::from_millis(gap_ms)).await;
+            }
+            for (i, resp, body_tx) in pending {
+                match tokio::time::timeout(Duration::from_millis(linger_ms.max(1)), resp).await {
+                    Ok(Ok(r)) => {
+                        out[i].status = r.status().as_u16();
+                        for (hn, hv) in r.headers() {
+                            out[i].headers.push((hn.as_str().to_string(), String::from_utf8_lossy(hv.as_bytes()).to_string()));
+                        }
+                        let mut body = r.into_body();
+                        while let Ok(Some(Ok(chunk))) = tokio::time::timeout(Duration::from_millis(50), body.data()).await {
+                            let _ = body.flow_control().release_capacity(chunk.len());
+                            out[i].body.extend_from_slice(&chunk);
+                        }
+                    }
+                    _ => {}
+                }
+                drop(body_tx);
+            }
+            drop(send);
+            driver.abort();
+            out
+        });
+        let tunnel = core.verif_on_tunnel_request(Protocol::Http2, codec, sni.to_string(), sni_creds);
+        tokio::pin!(tunnel);
+        let mut client_task = client_task;
+        tokio::select! {
+            _ = &mut tunnel => client_task.await.unwrap_or_default(),
+            r = &mut client_task => r.unwrap_or_default(),
+        }
     }
 }
